@@ -7,7 +7,7 @@ from .rhist import T0, T1, Alphabet, decode, max_options, run_history
 
 ALPHA = Alphabet(
     max_ctx=3,
-    add=[((T0,), "a", "ok"), ((T0, T1), "a", "ok")],
+    add=[((T0,), "a", "ok"), ((T0, T1), "a", "ok"), ((T1,), "a", "ok")],
     fac=[((T0,), "a", False, "ok"), ((T0, T1), "a", False, "ok")],
     look=[(T0, "a", "nowait"), (T1, "a", "nowait"), (T0, "a", "await"), (T1, "a", "inject_sync")],
     visit=True,
@@ -99,15 +99,17 @@ from asphalt.core import Context, ResourceNotFound, start_component  # noqa: E40
 
 
 def comp_params(tier):
-    return [P("node", 0, 1), P("phase", 0, 1), P("intask", 0, 1), P("late_factory", 0, 1), P("sibling_first", 0, 1)]
+    return [P("node", 0, 1), P("phase", 0, 1), P("intask", 0, 1), P("late_factory", 0, 1), P("sibling_first", 0, 1), P("falsy", 0, 2)]
 
 
 @guard
 def comp_fn(a, tier):
     node, phase, intask = pick(a["node"], 2), pick(a["phase"], 2), pick(a["intask"], 2)
     late_factory, sibling_first = pick(a["late_factory"], 2), pick(a["sibling_first"], 2)
+    falsy = pick(a["falsy"], 3)
     env = Env()
-    pre, late, sib = object(), object(), object()
+    pre, late = object(), object()
+    sib = [object(), 0, ""][falsy]  # what the sibling publishes: an ordinary object, or a falsy value
     made = []
     seen = {}
 
@@ -150,7 +152,9 @@ def comp_fn(a, tier):
     if late_factory:
         steps.append(("fac", "latefac", factory, "made", [RT[3]]))
     steps.append(("call", probe))
-    sib_steps = [("pub", "sib", sib, "sib", [RT[2]])]
+    # the target WAITS for the sibling's resource (component lookup path); the sibling publishes it a bit later
+    sib_steps = [("cp",), ("cp",), ("pub", "sib", sib, "sib", [RT[2]])]
+    steps.insert(0, ("wait", "sibwait", RT[2], "sib")) if node == 1 else None
     target_prep = steps if phase == 0 else []
     target_start = steps if phase == 1 else []
     if node == 0:
@@ -184,6 +188,8 @@ def comp_fn(a, tier):
         return FAIL("comp:late-factory-invisible", repr(seen["fac"]), summary)
     if seen["owner_after"]:
         return FAIL("comp:sub-context-addition-leaked-up", "", summary)
+    if node == 1 and env.values.get((1, "sibwait")) is not sib:
+        return FAIL(f"comp:waiting-component-lookup-disagrees-with-the-other-lookup-paths:falsy={falsy}", repr(env.values.get((1, "sibwait"))), summary)
     return OK(summary, True)
 
 
